@@ -420,7 +420,18 @@ def r_label_lang(model, rep):
     from .oracle_tables import LABEL_NAMES_MIN
     import re as _re
     names = model.const("composeinfo", "LABEL_NAMES")
-    lst = model.const("composeinfo", "LABEL_RE_LIST")
+    f = model.function("composeinfo", "verify_label")
+    one_pat = None
+    try:
+        lst = model.const("composeinfo", "LABEL_RE_LIST")
+    except AnalysisError:
+        # the ten patterns folded into something else: whatever verify_label applies to the label with .match
+        from .regexes import applied_regex
+        found = applied_regex(model, f)
+        if not found or any(meth != "match" for _, meth, _ in found):
+            raise AnalysisError("verify_label: neither LABEL_RE_LIST nor a pattern applied with .match found (idiom not understood)")
+        lst = [p_ for p_, _, _ in found]
+        one_pat = found
     if isinstance(lst, RegexConst):
         lst = [lst]
     pats = []
@@ -449,13 +460,18 @@ def r_label_lang(model, rep):
         rep.ob("R-LABEL-LANG", "label:%s" % nme, ok, site="productmd/composeinfo.py",
                msg="" if ok else "the documented label %r is rejected" % word)
     # verify_label: None passes, otherwise some pattern of the list must match, else ValueError
-    f = model.function("composeinfo", "verify_label")
     cx = facts.fctx(model, f)
     lab = ("param", cx.params[0])
     ss = [x for x in facts.searches(cx) if x.coll == ("global", "LABEL_RE_LIST")]
     r = [ev for ev in cx.events if ev.kind == "raise"]
     ok = len(ss) == 1 and len(r) == 1 and r[0].value[0] == "call" and r[0].value[1] == ("global", "ValueError")
-    if ok:
+    if one_pat is not None:
+        # one pattern: the ValueError is raised exactly when it does not match the label
+        notnone = facts.canon_guard((("cmp", ("is",), (lab, ("const", None))), False))
+        ok = len(r) == 1 and r[0].value[0] == "call" and r[0].value[1] == ("global", "ValueError") and len(one_pat) == 1 \
+            and one_pat[0][2].value[2][-1] == lab \
+            and facts.guard_atoms(facts.own_guards(cx, r[0])) - {notnone} == {facts.canon_guard((one_pat[0][2].value, False))}
+    elif ok:
         x = ss[0]
         ok = x.test in (("call", ("attr", x.elem, "match"), (lab,), ()), ("call", ("global", "re.match"), (x.elem, lab), ()))
         # the raise is conditioned on "no pattern matched" only (besides label is None -> return)
